@@ -538,6 +538,53 @@ def run(repo, rep, tier):
                     'parse_iparamvalue and the DTD differ in the allowed '
                     'children: %s' % sorted(accepted ^ dtdch))
     _linearity(repo, rep)
+    # ---- R4b: None is the only 'not given' value of a request parameter -----
+    # The _iparam_* helpers normalise what the caller passed.  They may treat
+    # None specially (the parameter is omitted from the request) but must not
+    # test the value by truthiness: an empty PropertyList ([] = return no
+    # properties), an empty string or 0/False are values the server must see.
+    r4b = rep.rule('C04.R4b', 'parameter helpers distinguish "not given" by '
+                   '`is None`, never by truthiness')
+    helpers_ = [f for n_, f in conn.methods.items()
+                if n_.startswith('_iparam_')]
+    m_ops = repo.module(OPS)
+    helpers_ += [f for n_, f in m_ops.functions.items()
+                 if n_.startswith('_iparam_')]
+    for f in helpers_:
+        ps = [p_ for p_ in f.params if p_ not in ('self', 'cls')]
+        if not ps:
+            continue
+        par = ps[0]
+        r4b.sites += 1
+        r4b.functions.add(f.fq)
+
+        def truth_uses(t, out):
+            if isinstance(t, ast.BoolOp):
+                for v in t.values:
+                    truth_uses(v, out)
+            elif isinstance(t, ast.UnaryOp) and isinstance(t.op, ast.Not):
+                truth_uses(t.operand, out)
+            elif isinstance(t, ast.Name) and t.id == par:
+                out.append(t)
+        bad = []
+        for n in walk_no_nested(f.node):
+            tests = []
+            if isinstance(n, (ast.If, ast.While, ast.IfExp, ast.Assert)):
+                tests.append(n.test)
+            elif isinstance(n, ast.BoolOp):
+                tests.append(n)
+            for t in tests:
+                truth_uses(t, bad)
+        r4b.ob(not bad, f.qualname, {'helper': f.qualname, 'parameter': par})
+        for u in bad[:1]:
+            rep.finding(r4b, f.qualname, par, 'truthiness-of-parameter', OPS,
+                        u.lineno, 'the request parameter %s is tested by '
+                        'truthiness: an empty list / empty string / 0 is '
+                        'handled like None and is not sent (e.g. '
+                        'PropertyList=[] must yield objects without '
+                        'properties, not all properties)' % par)
+    if r4b.sites < 8:
+        raise AnalysisError('only %d _iparam_* helpers found' % r4b.sites)
     # ---- R3b: the built-in default namespace is used in one place only -----
     # `DEFAULT_NAMESPACE` (root/cimv2) may only initialise the connection's
     # default_namespace; every operation falls back to the *connection's*
